@@ -110,6 +110,53 @@ def _join_dtype(a, b):
     return order[max(order.index(a), order.index(b))]
 
 
+class NBuf(list):
+    """buffer of a narrow integer array (int8/16/32, unsigned 8/16/32): shared by all views, carries the value range"""
+    irange = None
+
+
+def _int_range(t):
+    """(lo, hi) when t names a machine integer type narrower than 64 bits, else None"""
+    if t is None or t is int or t is float or t is bool or t in (BOOL, INT, FLOAT) or t is strs.PInt:
+        return None
+    try:
+        d = _rnp.dtype(t)
+    except Exception:
+        return None
+    if d.kind in "iu" and d.itemsize < 8:
+        ii = _rnp.iinfo(d)
+        return (int(ii.min), int(ii.max))
+    return None
+
+
+def _wrap_range(v, rng):
+    """array-to-array cast into a narrow type: two's complement wrap"""
+    lo, hi = rng
+    v = _item(v)
+    if isinstance(v, SymBool) or isinstance(v, bool):
+        return v
+    if is_sym(v):
+        e = zint(v)
+        return SymInt(z3.If(z3.And(e >= lo, e <= hi), e, (e - lo) % (hi - lo + 1) + lo))
+    if isinstance(v, int):
+        return (v - lo) % (hi - lo + 1) + lo
+    return v
+
+
+def _check_range(v, rng):
+    """scalar store into a narrow array: numpy 2 raises OverflowError for out-of-range Python / numpy integers"""
+    lo, hi = rng
+    v = _item(v)
+    if isinstance(v, (SymBool, bool, float, SymReal)):
+        return
+    if is_sym(v):
+        e = zint(v)
+        if not eng().decide(z3.And(e >= lo, e <= hi)):
+            raise OverflowError("Python integer out of bounds for a %d..%d integer array" % (lo, hi))
+    elif isinstance(v, int) and not lo <= v <= hi:
+        raise OverflowError("Python integer %d out of bounds for a %d..%d integer array" % (v, lo, hi))
+
+
 def _norm_dtype(t):
     if t is None:
         return None
@@ -265,9 +312,16 @@ class Arr(object):
 
     # ------------------------------------------------------------------ construction
     @staticmethod
-    def new(elems, shape, dtype, n=None, mask_prov=None):
+    def new(elems, shape, dtype, n=None, mask_prov=None, irange=None):
         buf = [_cast_in(x, dtype) for x in elems]
+        if irange is not None and dtype == INT:
+            buf = NBuf(_wrap_range(x, irange) for x in buf)
+            buf.irange = irange
         return Arr(buf, list(range(len(buf))), shape, dtype, n, mask_prov)
+
+    @property
+    def irange(self):
+        return getattr(self.buf, "irange", None)
 
     @property
     def ndim(self):
@@ -308,7 +362,7 @@ class Arr(object):
         return Arr(self.buf, self.offs[:k], (k,), self.dtype)
 
     def copy(self):
-        return Arr.new(self.elems(), self.shape, self.dtype, self.n, self.mask_prov)
+        return Arr.new(self.elems(), self.shape, self.dtype, self.n, self.mask_prov, irange=self.irange)
 
     def is_concrete(self):
         return self.n is None and all(not is_sym(x) for x in self.elems())
@@ -333,7 +387,7 @@ class Arr(object):
         dt = _norm_dtype(a.dtype)
         if a.ndim > 2:
             raise Inconclusive("arrays of more than 2 dimensions")
-        return Arr.new([_item(x) for x in a.reshape(-1)], a.shape, dt)
+        return Arr.new([_item(x) for x in a.reshape(-1)], a.shape, dt, irange=_int_range(a.dtype))
 
     # ------------------------------------------------------------------ iteration / conversion
     def __iter__(self):
@@ -354,7 +408,7 @@ class Arr(object):
 
     def astype(self, t):
         dt = _norm_dtype(t)
-        return Arr.new(self.elems(), self.shape, dt, self.n)
+        return Arr.new(self.elems(), self.shape, dt, self.n, irange=_int_range(t))
 
     @property
     def T(self):
@@ -506,7 +560,7 @@ class Arr(object):
     def __neg__(s):
         if s.dtype == BOOL:
             raise TypeError("The numpy boolean negative, the `-` operator, is not supported")
-        return Arr.new([(-x) for x in s.elems()], s.shape, s.dtype, s.n)
+        return Arr.new([(-x) for x in s.elems()], s.shape, s.dtype, s.n, irange=s.irange)
 
     def __invert__(s):
         if s.dtype != BOOL:
@@ -514,7 +568,7 @@ class Arr(object):
         return Arr.new([(~x if is_sym(x) else (not x)) for x in s.elems()], s.shape, BOOL, s.n)
 
     def __abs__(s):
-        return Arr.new([abs(x) for x in s.elems()], s.shape, s.dtype, s.n)
+        return Arr.new([abs(x) for x in s.elems()], s.shape, s.dtype, s.n, irange=s.irange)
 
     def __contains__(s, x):
         return bool(any_(s == x))
@@ -753,6 +807,8 @@ class Arr(object):
 
     # ------------------------------------------------------------------ assignment
     def _store(self, pos, v):
+        if getattr(self.buf, "irange", None) is not None:
+            _check_range(v, self.buf.irange)
         self.buf[self.offs[pos]] = _cast_in(v, self.dtype)
         if self.symrow is not None:
             parent, idx = self.symrow
@@ -772,6 +828,8 @@ class Arr(object):
         if isinstance(v, Arr):
             v = v.fix_len()
             vals = v.elems()
+            if self.irange is not None:
+                vals = [_wrap_range(x, self.irange) for x in vals]
         elif isinstance(v, (list, tuple)):
             vals = array(v).elems() if len(v) else []
         else:
@@ -783,6 +841,20 @@ class Arr(object):
         return vals
 
     def __setitem__(self, k, v):
+        rng = getattr(self.buf, "irange", None)
+        if rng is not None:
+            # narrow integer array: scalars / Python lists are range-checked (OverflowError), arrays are cast with wrap-around
+            if isinstance(v, Arr):
+                vf = v.fix_len()
+                v = Arr.new([_wrap_range(x, rng) for x in vf.elems()], vf.shape, vf.dtype)
+            elif isinstance(v, (list, tuple)):
+                for x in v:
+                    for y in (x if isinstance(x, (list, tuple)) else [x]):
+                        if isinstance(y, Arr):
+                            raise Inconclusive("nested arrays stored into a narrow integer array")
+                        _check_range(y, rng)
+            else:
+                _check_range(v, rng)
         try:
             return self._setitem(k, v)
         except (_Unsupported, Inconclusive) as ex:
@@ -1030,6 +1102,8 @@ def array(x, dtype=None):
     dt = _norm_dtype(dtype)
     if isinstance(x, Arr):
         r = x.copy()
+        if dtype is not None and _int_range(dtype) != r.irange:
+            return r.astype(dtype)
         return r.astype(dt) if dt and dt != r.dtype else r
     if type(x).__module__ == "numpy":
         r = Arr.from_numpy(x)
@@ -1047,11 +1121,11 @@ def array(x, dtype=None):
                 raise ValueError("setting an array element with a sequence. The requested array has an inhomogeneous shape")
             flat = [e for r_ in rows for e in r_]
             d = dt or _infer_dtype(flat, [y.dtype for y in items if isinstance(y, Arr)])
-            return Arr.new(flat, (len(rows), w), d)
+            return Arr.new(flat, (len(rows), w), d, irange=_int_range(dtype))
         if any(isinstance(y, (list, tuple, Arr)) for y in items):
             raise Inconclusive("ragged array")
         d = dt or _infer_dtype(items)
-        return Arr.new(items, (len(items),), d)
+        return Arr.new(items, (len(items),), d, irange=_int_range(dtype))
     if core._is_num(x):
         return x
     return delegate("array", x, dtype=dtype)
@@ -1077,7 +1151,7 @@ def _shape(shape):
     return (concrete_int(shape),)
 
 
-def _filled(shape, dtype, v):
+def _filled(shape, dtype, v, irange=None):
     shape = _shape(shape)
     if len(shape) > 2:
         raise Inconclusive("arrays of more than 2 dimensions")
@@ -1087,7 +1161,7 @@ def _filled(shape, dtype, v):
             raise ValueError("negative dimensions are not allowed")
         n *= s
     dt = _norm_dtype(dtype) or FLOAT
-    return Arr.new([v] * n, shape, dt)
+    return Arr.new([v] * n, shape, dt, irange=irange if irange is not None else _int_range(dtype))
 
 
 def zeros(shape, dtype=float):
@@ -1098,8 +1172,28 @@ def ones(shape, dtype=float):
     return _filled(shape, dtype, 1)
 
 
+def full(shape, fill_value, dtype=None):
+    if dtype is None:
+        dtype = _dtype_of_scalar(_item(fill_value))
+    return _filled(shape, dtype, fill_value)
+
+
 def zeros_like(a, dtype=None):
-    return _filled(a.shape, dtype or a.dtype, 0)
+    if not isinstance(a, Arr):
+        a = array(a)
+    return _filled(a.fix_len().shape, dtype or a.dtype, 0, irange=None if dtype else a.irange)
+
+
+def ones_like(a, dtype=None):
+    if not isinstance(a, Arr):
+        a = array(a)
+    return _filled(a.fix_len().shape, dtype or a.dtype, 1, irange=None if dtype else a.irange)
+
+
+def full_like(a, fill_value, dtype=None):
+    if not isinstance(a, Arr):
+        a = array(a)
+    return _filled(a.fix_len().shape, dtype or a.dtype, fill_value, irange=None if dtype else a.irange)
 
 
 def where(cond, *rest):
@@ -1647,7 +1741,7 @@ def make_module(random_impl=None):
     m = types.ModuleType("numpy")
     m.__dict__.update(dict(
         array=array, asarray=array, diff=diff, cumsum=cumsum, sign=sign, clip=clip, isin=isin, array_equal=array_equal, maximum=maximum, minimum=minimum,
-        add=_AddUfunc(), arange=arange, dot=dot, flatnonzero=flatnonzero, nonzero=nonzero, count_nonzero=count_nonzero, zeros=zeros, ones=ones, zeros_like=zeros_like, where=where, sum=sum_, max=max_,
+        add=_AddUfunc(), arange=arange, dot=dot, flatnonzero=flatnonzero, nonzero=nonzero, count_nonzero=count_nonzero, zeros=zeros, ones=ones, zeros_like=zeros_like, ones_like=ones_like, full=full, full_like=full_like, where=where, sum=sum_, max=max_,
         min=min_, amax=max_, amin=min_, argmax=argmax, argsort=argsort, all=all_, any=any_, abs=abs_, absolute=abs_,
         unique=unique, intersect1d=intersect1d, union1d=union1d, median=median, log=log, log2=log2,
         ndarray=Arr, int64=_rnp.int64, float64=_rnp.float64, bool_=_rnp.bool_, pi=_rnp.pi, e=_rnp.e, inf=_rnp.inf,
